@@ -17,8 +17,9 @@ from vlib.common import HarnessError, Result, RunContext, Violation, conclude, d
 
 RULE = ("Hypothesis draws well-formed definition closures (vlib.defgen.programs: 1-6 files, any import graph, constants and "
         "expressions, aliases of natives/aliases, nested structs and messages, scalar/array fields with literal or expression lengths, "
-        "signals, reserved ids, field-list reuse, auto-padding; validate_alignment on, auto_pad and import_coredefs drawn; low-weight "
-        "opt-in classes 'prefix-names' and 'zero-length'), preceded in every shard by a covering family in which each of the 26 native "
+        "signals, reserved ids, field-list reuse, auto-padding, aliases of imported structs (also as field types), structs holding "
+        "imported messages, string constants with quotes/backslashes, names containing MT_/MID_/HID_; validate_alignment on, auto_pad and "
+        "import_coredefs drawn; low-weight class 'zero-length'), preceded in every shard by a covering family in which each of the 26 native "
         "type names is a scalar field, an array element, an alias target used as scalar and as array, inside nested structs and struct "
         "arrays, compiled with the core definitions on and off.  Each program is compiled for real; ids, constants, string constants, "
         "module and host ids, hash values, field names/order/array lengths/element kind, width and signedness (as far as the language "
@@ -39,6 +40,8 @@ ASSUME = [
 ]
 
 ALLOW = ("prefix-names", "zero-length")
+# classes that were tied to compiler defects which are repaired now: part of the normal domain, kept at a moderate weight
+FORMER = ("alias-of-imported-struct", "alias-of-imported-struct-field", "struct-contains-message", "string-special")
 PREFIXES = ("MT_", "MID_", "HID_")
 
 
@@ -217,7 +220,7 @@ def run_case(E: L.Examiner, program: G.Program, res: Result = None):
         res.count("core-imported" if program.import_coredefs else "core-not-imported")
         res.count("auto-pad" if program.auto_pad else "no-auto-pad")
         for c in program.classes:
-            if c in ALLOW or c in ("needs-padding", "alias-field", "struct-array", "reuse", "message-in-message", "expr-length", "covering"):
+            if c in ALLOW or c in FORMER or c in ("needs-padding", "alias-field", "struct-array", "reuse", "message-in-message", "expr-length", "covering"):
                 res.count("class/" + c)
         nontrivial, sh = shape_of(program)
         if nontrivial:
@@ -258,8 +261,9 @@ def shard(seed, n, idx, quick):
 
         base = G.programs(validate_alignment=True)
         opt = G.programs(validate_alignment=True, allow=ALLOW)
+        former = G.programs(validate_alignment=True, allow=FORMER, skeleton=True)
         nocore = G.programs(validate_alignment=True, import_coredefs=False, rich=True)
-        hyp_run(body, st.one_of(base, nocore, base, nocore, opt), seed, n, res, collect=True)
+        hyp_run(body, st.one_of(base, nocore, former, nocore, opt, former), seed, n, res, collect=True)
     finally:
         E.close()
         L.cleanup()
